@@ -50,6 +50,8 @@ def build(spec, lazy=False):
         return R.PolygonalRegion(polygon=poly, z=z)
     if k == "footprint":
         return R.PolygonalFootprintRegion(shapely.geometry.Polygon(spec["pts"], spec.get("holes") or None))
+    if k == "polyfoot":      # the (cached) footprint of a polygonal region
+        return R.PolygonalRegion(polygon=shapely.geometry.Polygon(spec["pts"], spec.get("holes") or None), z=spec.get("z", 0)).footprint
     if k == "circle":
         r = Range(spec["r"], spec["r"]) if lazy else spec["r"]
         return R.CircularRegion(Vector(*spec["center"]), r)
@@ -79,6 +81,9 @@ def base_mesh(shape):
             m = trimesh.creation.cylinder(radius=1, height=1, sections=12)
         elif shape == "L":
             poly = shapely.geometry.Polygon([(0, 0), (2, 0), (2, 1), (1, 1), (1, 2), (0, 2)])
+            m = trimesh.creation.extrude_polygon(poly, 1.0)
+        elif shape == "U":
+            poly = shapely.geometry.Polygon([(0, 0), (3, 0), (3, 2), (2, 2), (2, 1), (1, 1), (1, 2), (0, 2)])
             m = trimesh.creation.extrude_polygon(poly, 1.0)
         else:
             m = trimesh.creation.box((1, 1, 1))
@@ -127,11 +132,13 @@ def truth_and_clearance(spec, reg, p):
         return s <= 1, (abs(s - 1) - 0.04) * float(h.min()), dict(local=[float(t) for t in u])
     if k in ("meshvol", "meshsurf"):
         mesh = reg.mesh
-        sd = float(trimesh.proximity.ProximityQuery(mesh).signed_distance([list(p)])[0])
+        sd = _SD.get((id(reg), tuple(p)))
+        if sd is None:
+            sd = float(trimesh.proximity.ProximityQuery(mesh).signed_distance([list(p)])[0])
         if k == "meshvol":
             return sd > 0, abs(sd), {}
         return None if abs(sd) < 1e-3 else False, abs(sd), {}
-    if k in ("polygon", "footprint", "rect"):
+    if k in ("polygon", "footprint", "polyfoot", "rect"):
         poly = reg.polygons
         pt = shapely.geometry.Point(x, y)
         inside = bool(poly.contains(pt))
@@ -192,6 +199,21 @@ def truth_and_clearance(spec, reg, p):
     raise ValueError(k)
 
 
+_SD = {}
+
+
+def precompute_sd(spec, reg, probes):
+    """signed distances of all probes to a mesh operand in one query (independent oracle: trimesh proximity)"""
+    if spec["kind"] in ("meshvol", "meshsurf"):
+        sd = trimesh.proximity.ProximityQuery(reg.mesh).signed_distance([list(p) for p in probes])
+        for p, d in zip(probes, sd):
+            _SD[(id(reg), tuple(p))] = float(d)
+    _KEEP.append(reg)
+
+
+_KEEP = []
+
+
 def fl(v):
     try:
         v = float(v)
@@ -236,6 +258,8 @@ def run_pair(job):
         probes = [tuple(p) for p in job["probes"]]
         vec = [Vector(*p) for p in probes]
         ta, tb = [], []
+        precompute_sd(job["A"], A0, probes)
+        precompute_sd(job["B"], B0, probes)
         for p in probes:
             m, c, info = truth_and_clearance(job["A"], A0, p)
             ta.append([m, c, info])
@@ -258,7 +282,10 @@ def run_pair(job):
             else:
                 A, B = A0, B0
             sys.setrecursionlimit(400)
-            o = obs(lambda: getattr(A, op)(B))
+            if op == "intersects_rev":
+                o = obs(lambda: B.intersects(A))
+            else:
+                o = obs(lambda: getattr(A, op)(B))
             sys.setrecursionlimit(3000)
             if "exc" in o:
                 r["exc"] = o["exc"]
@@ -266,7 +293,7 @@ def run_pair(job):
                 res[op] = r
                 continue
             v = o["v"]
-            if op == "intersects":
+            if op in ("intersects", "intersects_rev"):
                 from scenic.core.distributions import needsSampling as _ns
                 if _ns(v):
                     o2 = obs(lambda: v.sample())
@@ -302,6 +329,83 @@ def run_pair(job):
                 r["res_contains_A"] = obs(lambda: bool(v.containsRegion(A0, tolerance=1e-6)))
             res[op] = r
         out["res"] = res
+    except BaseException as e:  # noqa
+        import traceback
+        out["crash"] = type(e).__name__ + ": " + str(e)[:300] + " @ " + traceback.format_exc()[-400:]
+    return out
+
+
+# ------------------------------------------------------------------------------ histories
+def observe(v, vec, op):
+    """what a caller can see of the result of one operation"""
+    from scenic.core.distributions import needsSampling
+    r = dict()
+    if op == "intersects":
+        r["value"] = bool(v)
+        return r
+    if op == "containsRegion":
+        r["value"] = bool(v)
+        return r
+    r["class"] = type(v).__name__
+    r["z"] = fl(getattr(v, "z", None)) if isinstance(v, R.PolygonalRegion) else None
+    r["mem"] = [obs(lambda q=q: bool(v.containsPoint(q))) for q in vec]
+    r["aabb"] = aabb_of(v)
+    r["size"] = obs(lambda: fl(v.size))
+    r["dim"] = obs(lambda: fl(v.dimensionality))
+    if isinstance(v, R.PolygonalRegion):
+        r["bounds"] = [float(t) for t in v.polygons.bounds]
+    return r
+
+
+def apply_op(op, A, B):
+    if op == "containsRegion":
+        return A.containsRegion(B, tolerance=1e-6)
+    return getattr(A, op)(B)
+
+
+def touch(reg):
+    """read the cached derived data of a region (so later operations find warm caches)"""
+    for name in ("AABB", "size", "boundingPolygon", "footprint", "circumcircle", "isConvex", "kdTree", "dimensionality"):
+        try:
+            getattr(reg, name)
+        except BaseException:  # noqa
+            pass
+
+
+def run_history(job):
+    """the same region OBJECTS combined in several successive operations (caches carry over), each
+    result observed next to the same operation on freshly built equal regions"""
+    out = dict(id=job["id"])
+    try:
+        specs = job["pool"]
+        pool = [build(s) for s in specs]
+        probes = [tuple(p) for p in job["probes"]]
+        vec = [Vector(*p) for p in probes]
+        truth, mem = [], []
+        for s, reg in zip(specs, pool):
+            fresh = build(s)
+            precompute_sd(s, fresh, probes)
+            truth.append([list(truth_and_clearance(s, fresh, p)) for p in probes])
+            mem.append([obs(lambda v=v: bool(fresh.containsPoint(v))) for v in vec])
+        out["truth"], out["mem"] = truth, mem
+        steps = []
+        for op, i, j in job["steps"]:
+            st = dict()
+            for tag, (A, B) in (("pooled", (pool[i], pool[j] if j is not None else None)),
+                                ("fresh", (build(specs[i]), build(specs[j]) if j is not None else None))):
+                if op == "touch":
+                    touch(A)
+                    st[tag] = dict(value=True)
+                    continue
+                sys.setrecursionlimit(400)
+                o = obs(lambda: apply_op(op, A, B))
+                sys.setrecursionlimit(3000)
+                if "exc" in o:
+                    st[tag] = dict(exc=o["exc"], msg=o.get("msg"))
+                else:
+                    st[tag] = observe(o["v"], vec, op)
+            steps.append(st)
+        out["steps"] = steps
     except BaseException as e:  # noqa
         import traceback
         out["crash"] = type(e).__name__ + ": " + str(e)[:300] + " @ " + traceback.format_exc()[-400:]
@@ -504,7 +608,7 @@ def main():
     if kind == "dispatch":
         out = probe_dispatch(payload)
     elif kind == "pairs":
-        out = dict(results=[run_pair(j) for j in payload["jobs"]])
+        out = dict(results=[run_history(j) if j.get("kind") == "history" else run_pair(j) for j in payload["jobs"]])
     else:
         raise SystemExit("unknown kind")
     print(json.dumps(out))
